@@ -14,10 +14,11 @@ FLAGS_plain := $(BASE)
 REPO_SRCS := $(wildcard $(REPO)/src/CppUTest/*.cpp) $(wildcard $(REPO)/src/CppUTestExt/Mock*.cpp) $(REPO)/src/Platforms/Gcc/UtestPlatform.cpp
 repo_objs = $(patsubst $(REPO)/src/%.cpp,$(B)/$(1)/repo/%.o,$(REPO_SRCS))
 
-ENGINES_asan := runsim heapsim
+ENGINES_asan := runsim heapsim cachesim
 ENGINES_noexc := runsim
 ENGINES_noguard := heapsim
-ALL := $(foreach v,asan noexc noguard,$(foreach e,$(ENGINES_$(v)),$(B)/$(v)/$(e)))
+ENGINES_plain := runsim
+ALL := $(foreach v,asan noexc noguard plain,$(foreach e,$(ENGINES_$(v)),$(B)/$(v)/$(e)))
 
 all: $(ALL)
 
@@ -34,9 +35,9 @@ $(foreach v,asan noexc noguard plain,$(eval $(call VARIANT_RULES,$(v))))
 RUNSIM_SRCS := runsim/main.cpp runsim/gen.cpp runsim/exec.cpp runsim/oracle.cpp core/asanopts.cpp
 define RUNSIM_RULE
 $(B)/$(1)/runsim: $(patsubst %.cpp,$(B)/$(1)/verif/%.o,$(RUNSIM_SRCS)) $(call repo_objs,$(1))
-	$(CXX) $$(FLAGS_$(1)) $$^ -o $$@ -lexpat -lpthread
+	$(CXX) $$(FLAGS_$(1)) $$^ -o $$@ -lexpat -lpthread -Wl,--wrap=kill
 endef
-$(foreach v,asan noexc,$(eval $(call RUNSIM_RULE,$(v))))
+$(foreach v,asan noexc plain,$(eval $(call RUNSIM_RULE,$(v))))
 
 HEAPSIM_SRCS := heapsim/heapsim.cpp core/asanopts.cpp
 define HEAPSIM_RULE
@@ -44,6 +45,10 @@ $(B)/$(1)/heapsim: $(patsubst %.cpp,$(B)/$(1)/verif/%.o,$(HEAPSIM_SRCS)) $(call 
 	$(CXX) $$(FLAGS_$(1)) $$^ -o $$@ -lpthread
 endef
 $(foreach v,asan noguard,$(eval $(call HEAPSIM_RULE,$(v))))
+
+CACHESIM_SRCS := cachesim/cachesim.cpp core/asanopts.cpp
+$(B)/asan/cachesim: $(patsubst %.cpp,$(B)/asan/verif/%.o,$(CACHESIM_SRCS)) $(call repo_objs,asan)
+	$(CXX) $(FLAGS_asan) $^ -o $@ -lpthread
 
 clean:
 	rm -rf $(B)
